@@ -42,7 +42,13 @@ type scenario struct {
 	// Limit: Reader.MaxFrameSize; generated as exactly the largest frame payload of the stream (or more), so
 	// that a valid stream stays acceptable: a frame AT the limit is not over it.
 	Limit int64
-	Ctor  int // 0 struct literal, 1 NewReader, 2 NewClientSideReader/NewServerSideReader
+	// Idles: stream offsets (anywhere) at which the transport returns one (0, nil) read. All entries.
+	Idles []int
+	// ZeroBuf: the Read loops of the harness issue a zero-length Read before every real one (it must be a no-op).
+	ZeroBuf bool
+	// SkipCheck: Reader.SkipHeaderCheck - a valid stream reads the same with the check off.
+	SkipCheck bool
+	Ctor      int // 0 struct literal, 1 NewReader, 2 NewClientSideReader/NewServerSideReader
 	// ContRead: the OnContinuation callback reads this many bytes (at most) of every
 	// continuation body; they are consumed by the callback, the rest is delivered by Read.
 	ContRead int
@@ -52,6 +58,7 @@ func (s scenario) describe() interface{} {
 	return map[string]interface{}{
 		"entry": s.Entry, "state": int(s.State), "chunks": s.Chunks, "eof_with_data": s.EOFData,
 		"bufsize": s.BufSize, "frames": ref.Describe(s.Frames), "discards": s.Discards, "want": int(s.Want), "oncontinuation_reads": s.ContRead, "ctor": s.Ctor, "stall_at_frame_starts": s.Stalls, "max_frame_size": s.Limit,
+		"idle_reads_at": s.Idles, "zero_length_reads": s.ZeroBuf, "skip_header_check": s.SkipCheck,
 	}
 }
 
@@ -62,6 +69,12 @@ func (s scenario) src() *tx.Src {
 		src.StallAt = map[int]bool{}
 		for _, off := range s.Stalls {
 			src.StallAt[off] = true
+		}
+	}
+	if len(s.Idles) > 0 {
+		src.IdleAt = map[int]bool{}
+		for _, off := range s.Idles {
+			src.IdleAt[off] = true
 		}
 	}
 	return src
@@ -89,7 +102,7 @@ func (s scenario) note() {
 
 // readAll reads r to io.EOF with a caller buffer of the given size,
 // tolerating a bounded number of (0, nil) reads.
-func readAll(r io.Reader, bufSize, maxIdle int) ([]byte, error) {
+func readAll(r io.Reader, bufSize, maxIdle int, zero ...bool) ([]byte, error) {
 	if bufSize <= 0 {
 		bufSize = 4096
 	}
@@ -97,6 +110,19 @@ func readAll(r io.Reader, bufSize, maxIdle int) ([]byte, error) {
 	var out []byte
 	idle := 0
 	for {
+		if len(zero) > 0 && zero[0] {
+			// a zero-length Read is a no-op wherever it falls (it may report the end once everything was delivered)
+			n0, err0 := r.Read(buf[:0])
+			if n0 != 0 {
+				return out, fmt.Errorf("a zero-length Read returned n=%d", n0)
+			}
+			if err0 == io.EOF {
+				return out, nil
+			}
+			if err0 != nil && err0 != tx.ErrTransient {
+				return out, fmt.Errorf("a zero-length Read after %d delivered bytes returned %v", len(out), err0)
+			}
+		}
 		n, err := r.Read(buf)
 		out = append(out, buf[:n]...)
 		if err == tx.ErrTransient && n == 0 {
@@ -156,10 +182,11 @@ func newReader(src io.Reader, s scenario) *wsutil.Reader {
 	case s.Ctor == 2 && s.State == ws.StateServerSide:
 		rd = wsutil.NewServerSideReader(src)
 	default:
-		return &wsutil.Reader{Source: src, State: s.State, CheckUTF8: s.UTF8, MaxFrameSize: s.Limit}
+		return &wsutil.Reader{Source: src, State: s.State, CheckUTF8: s.UTF8, MaxFrameSize: s.Limit, SkipHeaderCheck: s.SkipCheck}
 	}
 	rd.CheckUTF8 = s.UTF8
 	rd.MaxFrameSize = s.Limit
+	rd.SkipHeaderCheck = s.SkipCheck
 	return rd
 }
 
@@ -186,7 +213,7 @@ func runReader(s scenario) error {
 			p = make([]byte, h.Length/2)
 			_, err = io.ReadFull(r, p)
 		} else {
-			p, err = readAll(r, s.BufSize, idle)
+			p, err = readAll(r, s.BufSize, idle, s.ZeroBuf)
 		}
 		if err != nil {
 			cbErr = fmt.Errorf("reading intermediate control payload: %v", err)
@@ -288,7 +315,7 @@ func runReader(s scenario) error {
 			if !sameHeader(h, wantHeader(fh)) {
 				return fmt.Errorf("NextFrame returned %+v, stream has %v", h, fh)
 			}
-			p, err := readAll(rd, s.BufSize, idle)
+			p, err := readAll(rd, s.BufSize, idle, s.ZeroBuf)
 			if err != nil {
 				return fmt.Errorf("reading top-level control frame %v: %v", e, err)
 			}
@@ -304,7 +331,7 @@ func runReader(s scenario) error {
 		}
 		msgIdx++
 		if d < 0 {
-			p, err := readAll(rd, s.BufSize, idle)
+			p, err := readAll(rd, s.BufSize, idle, s.ZeroBuf)
 			if err != nil {
 				return fmt.Errorf("reading message %v: %v (got %d bytes)", e, err, len(p))
 			}
@@ -383,7 +410,7 @@ func runNextReader(s scenario) error {
 		if h.OpCode != ws.OpCode(e.Op) {
 			return fmt.Errorf("NextReader opcode %v, want %#x", h.OpCode, e.Op)
 		}
-		p, err := readAll(r, s.BufSize, idle)
+		p, err := readAll(r, s.BufSize, idle, s.ZeroBuf)
 		if err != nil {
 			return fmt.Errorf("NextReader: reading %v: %v", e, err)
 		}
@@ -555,6 +582,16 @@ func drawTransport(t *rapid.T, s *scenario) {
 	s.Chunks = gen.Chunks(t, "chunks")
 	s.EOFData = rapid.Bool().Draw(t, "eofdata")
 	s.BufSize = rapid.SampledFrom(bufSizes).Draw(t, "bufsize")
+	if rapid.IntRange(0, 3).Draw(t, "idles?") == 0 {
+		total := len(ref.EncodeAll(s.Frames))
+		for i := rapid.IntRange(1, 4).Draw(t, "nidles"); i > 0 && total > 0; i-- {
+			s.Idles = append(s.Idles, rapid.IntRange(0, total-1).Draw(t, "idleAt"))
+		}
+		hx.Class("transport/(0,nil)-reads")
+	}
+	if s.ZeroBuf = rapid.IntRange(0, 4).Draw(t, "zerobuf") == 0; s.ZeroBuf {
+		hx.Class("consumer/zero-length-reads")
+	}
 }
 
 func TestReader(t *testing.T) {
@@ -567,6 +604,9 @@ func TestReader(t *testing.T) {
 		drawTransport(t, &s)
 		s.UTF8 = rapid.Bool().Draw(t, "utf8")
 		s.Ctor = rapid.IntRange(0, 2).Draw(t, "ctor")
+		if s.SkipCheck = rapid.IntRange(0, 3).Draw(t, "skipHeaderCheck") == 0; s.SkipCheck {
+			hx.Class("Reader/SkipHeaderCheck")
+		}
 		if rapid.IntRange(0, 2).Draw(t, "limit?") == 0 {
 			for _, f := range s.Frames {
 				if n := int64(len(f.Payload)); n > s.Limit {
